@@ -1,6 +1,7 @@
 """C14: GenBank and GFF3 descriptions of the same genes give the same mutations."""
 import common as cm
 import cmdlayer
+import loclayer
 import gen
 import anno
 import vcommon
@@ -35,7 +36,7 @@ def generate(ctx):
     for g in range(n):
         L = rng.choice([30, 45, 60, 90])
         genome = gen.rand_seq(rng, L)
-        feats = anno.random_features(rng, L, max_feats=3, codon_starts=True, rotate=0.3)
+        feats = anno.random_features(rng, L, max_feats=3, codon_starts=True)
         genome, feats = anno.patch_stops(rng, genome, feats)
         names = set()
         feats = [f for f in feats if not (f.name in names or names.add(f.name))]
@@ -85,10 +86,14 @@ def extra(ctx, obl, cases, obs):
     """the command through the built binary (cmd/*.go): binary = library entry point, and the option handling the command does itself"""
     n = 2 if ctx.tier == "quick" else 12
     _cmd_state["binary_runs"] = cmdlayer.variants_layer(ctx, n)
+    _cmd_state["annotation_text_runs"] = cmdlayer.annotation_text_layer(ctx)
+    # the location strings themselves, byte level: implementation = LocationModel.v = the location AST
+    cm.coq_make(["theories/Check_Loc.vo"], ctx.log)
+    _cmd_state.update(loclayer.run(ctx, 250 if ctx.tier == "quick" else 4000))
 
 
 _cmd_state = {}
 
 
 def coverage_extra(ctx):
-    return {"binary_runs": _cmd_state.get("binary_runs", 0)}
+    return dict(_cmd_state)
